@@ -143,11 +143,22 @@ class BaseStorage:
     async def unsubscribe(self, client_id, sub_id=None):
         if sub_id:
             try:
-                self.clients[client_id][sub_id].cancel()
+                sub = self.clients[client_id][sub_id]
+                sub.cancel()
                 del self.clients[client_id][sub_id]
                 self.log.debug("%s/%s -", client_id, sub_id)
             except KeyError:
                 pass
+            else:
+                # what is still waiting to be sent for this subscription is stale now
+                queue = sub.queue
+                if queue is not None:
+                    waiting = []
+                    while not queue.empty():
+                        waiting.append(queue.get_nowait())
+                    for item in waiting:
+                        if item[0] != sub_id:
+                            queue.put_nowait(item)
         elif client_id in self.clients:
             del self.clients[client_id]
 
